@@ -1,4 +1,5 @@
 import HC.Pure.Config
+import HC.Pure.ConfigObjects
 /-!
 # C19 — Configuration sources agree; command-line flags wired one-to-one; binds parse; response headers
 
@@ -724,5 +725,121 @@ theorem response_headers_spec (c : HeaderCfg) (date protocol : Bytes) :
       simp [responseHeaders, hd, hs, d1, d3, d1.symm, d3.symm]
   · cases hd : c.includeDate <;> cases hs : c.includeServer <;>
       simp [responseHeaders, hd, hs, List.filterMap_append, List.filterMap_cons, d2, d3, hfm]
+
+/-! ### Several `Config` objects: derived state stays with the object that derived it
+
+Model: `HC/Pure/ConfigObjects.lean` (a class-level list, objects, histories of `Config()` / attribute assignments /
+`create_sockets()`); facts about the source: `HC/Extracted/ConfigState.lean`. -/
+
+/-- **`_set_quic_addresses` starts from a fresh empty list bound on the instance** (re-decided against the current source; the
+    obligation a method that appends to whatever list the attribute lookup finds - the class's - does not meet) -/
+theorem quic_addresses_reset_spec : ConfigState.quicAddressesReset = true := by decide
+
+/-- **no state of `config.py` is shared between `Config` objects behind their back**: no in-place change of a mutable class-level
+    default (or of a mutable module-level name) that is not preceded by a rebinding on the same object, no attribute kept on the
+    class, no memoised function (re-decided against the current source) -/
+theorem config_shared_state_spec :
+    ConfigState.configSharedMutations = [] ∧ ConfigState.configClassAccess = [] ∧ ConfigState.configMemoised = [] := by decide
+
+private theorem quicReset_true : quicReset = true := quic_addresses_reset_spec
+
+private theorem step_shared (w : World) (op : Op) : (step w op).shared = w.shared := by
+  unfold step
+  rw [quicReset_true]
+  cases op <;> simp only [stepWith, setQuic] <;> (try rfl) <;> split <;> (try split) <;> simp
+
+private theorem step_obj (w : World) (op : Op) (i : Nat) (o : Obj) (h : w.objs[i]? = some o) :
+    (step w op).objs[i]? = some (if op.target = some i then objStep o op else o) := by
+  have hi : i < w.objs.length := by
+    rcases Nat.lt_or_ge i w.objs.length with h' | h'
+    · exact h'
+    · simp [List.getElem?_eq_none h'] at h
+  unfold step
+  rw [quicReset_true]
+  cases op with
+  | new => simp [stepWith, Op.target, List.getElem?_append_left hi, h]
+  | setDate j b | setServer j b | setAltSvc j b | setSsl j b =>
+    simp only [stepWith, Op.target, objStep]
+    cases hj : w.objs[j]? with
+    | none => by_cases e : j = i <;> simp_all
+    | some oj => by_cases e : j = i <;> simp_all
+  | createSockets j q =>
+    simp only [stepWith, Op.target, objStep, setQuic]
+    cases hj : w.objs[j]? with
+    | none => by_cases e : j = i <;> simp_all
+    | some oj => by_cases e : j = i <;> cases hs : oj.ssl <;> simp_all
+
+private theorem run_cons (w : World) (op : Op) (ops : List Op) : run w (op :: ops) = run (step w op) ops := rfl
+
+/-- **no interference between `Config` objects, no accumulation**: after ANY history of operations on any number of objects, the
+    list the class body binds to `_quic_addresses` is as it was, and an object is exactly what the operations applied to IT make of
+    it (`ownRun`: its own settings, and the QUIC ports of its own last `create_sockets()` under TLS) -/
+theorem history_own (w : World) (ops : List Op) (i : Nat) (o : Obj) (h : w.objs[i]? = some o) :
+    (run w ops).shared = w.shared ∧ (run w ops).objs[i]? = some (ownRun i o ops) := by
+  induction ops generalizing w o with
+  | nil => exact ⟨rfl, h⟩
+  | cons op ops ih =>
+    have h' := step_obj w op i o h
+    obtain ⟨a, b⟩ := ih (step w op) _ h'
+    rw [run_cons]
+    refine ⟨by rw [a, step_shared], ?_⟩
+    rw [b]
+    simp [ownRun, List.foldl_cons]
+
+theorem history_shared (ops : List Op) : (run World.init ops).shared = [] := by
+  suffices h : ∀ w : World, (run w ops).shared = w.shared from h World.init
+  induction ops with
+  | nil => intro w; rfl
+  | cons op ops ih => intro w; rw [run_cons, ih, step_shared]
+
+private theorem run_append (w : World) (a b : List Op) : run w (a ++ b) = run (run w a) b := by
+  simp [run, runWith, List.foldl_append]
+
+/-- the object made by `Config()` after an arbitrary history `pre` (other objects with TLS and QUIC sockets included), followed by
+    an arbitrary history `post`: the class defaults and the operations of `post` applied to it - nothing of `pre`, nothing that
+    `post` does to other objects -/
+theorem history_object (pre post : List Op) :
+    (run World.init (pre ++ .new :: post)).objs[(run World.init pre).objs.length]? =
+      some (ownRun (run World.init pre).objs.length Obj.fresh post) := by
+  rw [run_append, run_cons]
+  refine (history_own _ post _ Obj.fresh ?_).2
+  unfold step
+  simp [stepWith]
+
+/-- **the response headers of an object are a function of the object alone**: its switches, its alt-svc values, else the QUIC
+    ports it recorded itself -/
+theorem response_headers_own (ops : List Op) (o : Obj) (alpn : List Bytes) (date protocol : Bytes) :
+    objHeaders (run World.init ops) o alpn date protocol = ownHeaders o alpn date protocol := by
+  simp [objHeaders, ownHeaders, quicOf, history_shared]
+
+/-- a `Config()` made after any history answers with date and server only: it advertises no HTTP/3 endpoint it has not bound -/
+theorem fresh_config_headers (pre : List Op) (alpn : List Bytes) (date protocol : Bytes) :
+    (run World.init (pre ++ [.new])).objs[(run World.init pre).objs.length]? = some Obj.fresh ∧
+    objHeaders (run World.init (pre ++ [.new])) Obj.fresh alpn date protocol =
+      [("date".b, date), ("server".b, "hypercorn-".b ++ protocol)] := by
+  refine ⟨by simpa [ownRun] using history_object pre [], ?_⟩
+  rw [response_headers_own]
+  simp [ownHeaders, Obj.fresh, altSvcOf, altSvcAuto, responseHeaders, Consts.cfg_include_date_header, Consts.cfg_include_server_header]
+
+/-- `create_sockets()` twice (restart, second `serve()`): the ports of the second call, not both -/
+theorem create_sockets_again (o : Obj) (i : Nat) (q1 q2 : List Nat) (hs : o.ssl = true) :
+    (objStep (objStep o (.createSockets i q1)) (.createSockets i q2)).quicOwn = some q2 := by
+  simp [objStep, hs]
+
+/-- what an object advertises by itself after its `create_sockets()` under TLS, whatever else happened in the process: its own
+    alt-svc values if it has any, else one value per HTTP/3 version and QUIC port of THAT call -/
+theorem alt_svc_of_own_sockets (ops : List Op) (o : Obj) (i : Nat) (q : List Nat) (alpn : List Bytes) (date protocol : Bytes)
+    (hs : o.ssl = true) :
+    (objHeaders (run World.init ops) (objStep o (.createSockets i q)) alpn date protocol).filterMap
+        (fun h => if h.1 = "alt-svc".b then some h.2 else none) =
+      if o.altSvc.isEmpty then altSvcAuto alpn q else o.altSvc := by
+  rw [response_headers_own]
+  let c : HeaderCfg := ⟨o.includeDate, o.includeServer, if o.altSvc.isEmpty then altSvcAuto alpn q else o.altSvc⟩
+  have h := (response_headers_spec c date protocol).2.2.2
+  simpa [ownHeaders, objStep, hs, altSvcOf, c] using h
+
+example : ((run World.init [.new, .setSsl 0 true, .createSockets 0 [4433], .new, .createSockets 1 [9], .createSockets 0 [4434], .new]).objs.map
+    (quicOf (run World.init [.new, .setSsl 0 true, .createSockets 0 [4433], .new, .createSockets 1 [9], .createSockets 0 [4434], .new]))) =
+    [[4434], [], []] := by decide
 
 end HC.Props.C19
